@@ -19,9 +19,9 @@ ASSUMPTIONS = ['string ids and strings are concrete and resolvable; numeric valu
 OUTSIDE = ['the float computation of the UTC instant beyond the enumerated representatives',
            'subsets with 3 < |present| < 28 (quick: 2 < . < 29)', 'message shapes with more than 2 segments']
 EXPLORE_OPTS = {'max_paths': 120000, 'max_seconds': 1500}
-STRINGS = {101: 'composed', 102: '/bin/proc', 103: 'proc', 104: '/lib/sender', 105: 'sender', 106: 'subsys', 107: 'categ',
+STRINGS = {101: 'composed', 102: '/bin/proc', 0: 'proc', 104: '/lib/sender', 105: 'sender', 106: 'subsys', 107: 'categ',
            108: 'fmt %d', 109: 'signpost', 110: 'prefix', 111: '%d', 112: 'tok', 113: 'ns', 114: 'ty', 115: 'objrep'}
-STR_OF = {'pip': 102, 'p': 103, 'sip': 104, 'send': 105, 'sub': 106, 'cat': 107, 'f': 108, 'sn': 109}
+STR_OF = {'pip': 102, 'p': 0, 'sip': 104, 'send': 105, 'sub': 106, 'cat': 107, 'f': 108, 'sn': 109}
 
 
 def setup(symbolic):
@@ -261,8 +261,8 @@ def run_ti(ctx, st):
     elif nsname == 'trace':
         ctx.assume(Or(*[hi == v for v in (1, 2, 4, 8, 0x10, 0x80)]))
     ctx.assume(((w >> 22) & 3) == 0)       # the two reserved bits of the base flags
-    saved = (ole.firehose_tracepoint_id, ole.Int64ul)
-    if ctx.symbolic:
+    saved = (getattr(ole, 'firehose_tracepoint_id', None), getattr(ole, 'Int64ul', None))
+    if ctx.symbolic and saved[0] is not None and saved[1] is not None:
         ole.firehose_tracepoint_id = cstruct.ParseStub(saved[0])
         ole.Int64ul = cstruct.BuildStub(saved[1])
     try:
@@ -273,7 +273,8 @@ def run_ti(ctx, st):
         except Exception as e:      # noqa
             ctx.check('C16/trace-identifier/%s' % nsname, False, '%s: %s' % (type(e).__name__, e)); ctx.reach(); return
     finally:
-        ole.firehose_tracepoint_id, ole.Int64ul = saved
+        if saved[0] is not None and saved[1] is not None:
+            ole.firehose_tracepoint_id, ole.Int64ul = saved
     want = O.unpack_trace_id(w)
     ctx.observe('decoded', [getattr(t.type_, 'value', t.type_), _b(t.has_large_offset), _b(t.has_unique_pid), t.pc_style.value,
                             _b(t.has_current_aid), getattr(t.flags, 'value', None), t.code])
